@@ -112,6 +112,7 @@ def parseOp : List String → Option Op
       let raw ← parseBool raw
       some (.rp db rp sgd raw)
     else none
+  | ["sgd", db, rp, d] => (toI64? d).map (.sgd db rp ·)
   | ["csg", db, rp, t] => (toI64? t).map (.csg db rp ·)
   | ["ms", db, rp, c, ts] => do
     let c ← if c = "-" then some none else (toI64? c).map some
